@@ -322,16 +322,16 @@ def special_templates(model, defs, node, form):
     return good, bad
 
 
-def part_vocabulary(w, run, model, vocab, defs):
+def part_vocabulary(w, run, model, vocab, defs, chunk=0, nchunks=1):
     m = model
-    rng = w.rng
     quick = w.quick
     c1, c2 = "Square", "Circle"
     plain_for_wrong_parent = [n for n in vocab.plain_nodes if not n.takes_value]
     idx = 0
     before = run.n
-    for node in m.nodes:
-        if not m.usable(node):
+    for ni, node in enumerate(m.nodes):
+        idx = ni * 16
+        if ni % nchunks != chunk or not m.usable(node):
             continue
         forms = node.forms()
         spellings = list(forms)
@@ -433,7 +433,7 @@ def part_vocabulary(w, run, model, vocab, defs):
                 else:
                     run.invalid(ctx_c1 + ",(" + ctx_c2 + ",(" + other + "," + sp + "))", "repeat", CL_REPEAT)
     # unknown words in every context
-    for i in range(CONTEXTS):
+    for i in range(CONTEXTS if chunk == 0 else 0):
         run.invalid(in_context(UNKNOWN_WORD, i, c1, c2), "unknown", CL_UNKNOWN)
         run.invalid(in_context(UNKNOWN_WORD + "/" + EXT_WORD, i, c1, c2), "unknown", CL_UNKNOWN)
         run.invalid(in_context(UNKNOWN_WORD + "/Red", i, c1, c2), "unknown", CL_UNKNOWN)
@@ -443,6 +443,9 @@ def part_vocabulary(w, run, model, vocab, defs):
 # =====================================================================================================
 # part 2: structural grammar
 # =====================================================================================================
+GRAMMAR_BOUND = {True: (3, 2), False: (4, 3)}      # quick / thorough: (max leaves, max depth)
+
+
 def forests(n, d, _memo={}):
     """all ordered forests with n leaves, nesting depth <= d; leaf = None, group = tuple of items"""
     key = (n, d)
@@ -600,15 +603,15 @@ def special_groups(model, defs):
     return out
 
 
-def part_grammar(w, run, model, vocab, defs):
+def part_grammar(w, run, model, vocab, defs, chunk=0, nchunks=1):
     rng = w.rng
     quick = w.quick
     atoms, bad_atoms = build_atoms(model, vocab, defs, rng, quick)
     specials = special_groups(model, defs)
     a, b = defs["plain"]
     v1, v2 = defs["value_members"]
-    max_n, max_d = (3, 2) if quick else (4, 3)
-    fills = 1 if quick else 2
+    max_n, max_d = GRAMMAR_BOUND[quick]
+    fills = 1
     before = run.n
     shapes = []
     for n in range(1, max_n + 1):
@@ -617,6 +620,8 @@ def part_grammar(w, run, model, vocab, defs):
     ci = 0
     free_atoms = [x for x in atoms if x not in ("Green", "Triangle")]
     for si, shape in enumerate(shapes):
+        if si % nchunks != chunk:
+            continue
         nleaf = sum(1 for _ in _leaves(shape))
         for f in range(fills):
             leaves = rng.sample(free_atoms, nleaf)
@@ -741,13 +746,13 @@ def part_grammar(w, run, model, vocab, defs):
             run.invalid(text + ",", "empty", CL_EMPTY)
             run.invalid(text + ",()", "empty", CL_EMPTY)
             run.invalid("()," + text, "empty", CL_EMPTY)
-            # equal counts but not balanced: each matched pair swapped, and a ')(' pair inserted between siblings
-            for o, c in matched_pairs(toks):
-                swapped = text[:o] + ")" + text[o + 1:c] + "(" + text[c + 1:]
-                run.invalid(swapped, "parens", CL_PARENS_D1)
-            for ti, (t, pos) in enumerate(toks):
-                if t == ",":
-                    run.invalid(text[:pos] + ")" + "," + "(" + text[pos + 1:], "parens", CL_PARENS_D1)
+            # equal counts but not balanced: a matched pair swapped, a '),(' written for a comma -- kept only where the
+            # result really is unbalanced (some ')' closes nothing), which is the case at nesting depth 0
+            d1 = [text[:o] + ")" + text[o + 1:c] + "(" + text[c + 1:] for o, c in matched_pairs(toks)]
+            d1 += [text[:pos] + "),(" + text[pos + 1:] for t, pos in toks if t == ","]
+            for mutated in d1:
+                if mutated.count("(") == mutated.count(")") and not balanced(mutated):
+                    run.invalid(mutated, "parens", CL_PARENS_D1)
     return run.n - before, len(shapes)
 
 
@@ -836,6 +841,19 @@ def _inside_name(toks, pos):
     return False
 
 
+def balanced(text):
+    """parentheses of the text are properly nested (specification: every '(' has a later matching ')')"""
+    depth = 0
+    for ch in text:
+        if ch == "(":
+            depth += 1
+        elif ch == ")":
+            depth -= 1
+            if depth < 0:
+                return False
+    return depth == 0
+
+
 def matched_pairs(toks):
     st, out = [], []
     for t, p in toks:
@@ -847,39 +865,86 @@ def matched_pairs(toks):
 
 
 # =====================================================================================================
-def run_version(w, version):
+def _task(args):
+    """one unit of work, run in a worker process: (tier, seed, version, part, chunk, nchunks) -> partial result"""
+    import random
+    tier, seed, version, part, chunk, nchunks = args
+    w = Workload("C01", tier, seed)
+    w.rng = random.Random("%s/%s/%s/%s" % (seed, version, part, chunk))
+    w.max_failures_per_clause = 3
     model = SchemaModel(version)
     defs = pick_defs(model)
     env = Env(version, defs["strings"])
-    if env.def_issues:
-        w.fail(CL_VALID, {"schema": version, "definitions": defs["strings"]}, observed=env.def_issues, expected=[])
+    if env.def_issues and chunk == 0:
+        w.fail(CL_VALID, {"schema": version, "text": "", "allow_placeholders": False, "rule": "definitions",
+                          "definitions": defs["strings"]}, observed=env.def_issues, expected=[])
     vocab = Vocab(model, w.quick, w.rng)
     run = Runner(w, env, model)
     run.env_defs = defs["strings"]
-    nv = part_vocabulary(w, run, model, vocab, defs)
-    w.part("vocabulary[%s]" % version, cases=nv,
-           bound="every non-deprecated tag of HED%s.xml x every spelling (short, each partial path, long, 2 case variants) "
-                 "x rotating context of depth <= 2; values: %s per value class, units: every unit spelling of the unit "
-                 "class with %s SI modifiers; tag-level mutations on %s spellings" %
-                 (version, "2-4" if w.quick else "2-7", "2 of 20" if w.quick else "all",
-                  "short, long and one more" if w.quick else "all"),
-           exhaustive=True, per_clause=dict(run.counts))
-    c0 = dict(run.counts)
-    ng, nshapes = part_grammar(w, run, model, vocab, defs)
-    w.part("grammar[%s]" % version, cases=ng,
-           bound="all %d ordered forest shapes with <= %d leaves, depth <= %d, %d random distinct-atom filling(s) each, "
-                 "one special group on every second shape; each structural mutation at every position" %
-                 (nshapes, 3 if w.quick else 4, 2 if w.quick else 3, 1 if w.quick else 2),
-           exhaustive=False, per_clause={k: v - c0.get(k, 0) for k, v in run.counts.items()})
+    extra = {}
+    if part == "vocabulary":
+        n = part_vocabulary(w, run, model, vocab, defs, chunk, nchunks)
+    else:
+        n, extra["shapes"] = part_grammar(w, run, model, vocab, defs, chunk, nchunks)
+    return {"version": version, "part": part, "chunk": chunk, "cases": n, "counts": run.counts, "extra": extra,
+            "evaluations": w.evaluations, "distinct": {_h(k) for k in w.distinct}, "failures": w.failures,
+            "per_clause": w._per_clause, "samples": w.samples[:2]}
+
+
+def _h(key):
+    import hashlib
+    return int.from_bytes(hashlib.blake2b(repr(key).encode("utf-8", "backslashreplace"), digest_size=8).digest(), "big")
 
 
 def run(w: Workload):
+    import multiprocessing
     w.rule = ("vocabulary sweep: one case per (schema version, tag, spelling, construct[, value, unit]) and per tag-level "
               "single-rule mutation of it; grammar: one case per (forest shape, filling, special group) and per (mutation, "
               "position); each with allow_placeholders in {False, True}; cases are distinct by (version, text, flag)")
     versions = ["8.3.0"] if w.quick else ["8.3.0", "8.2.0", "8.0.0"]
     for v in versions:
-        run_version(w, v)
+        schema(v)                       # load (and seed the cache) once, before forking
+    vchunks, gchunks = (3, 3) if w.quick else (4, 24)
+    tasks = []
+    for v in versions:
+        tasks += [(w.tier, w.seed, v, "grammar", c, gchunks) for c in range(gchunks)]
+        tasks += [(w.tier, w.seed, v, "vocabulary", c, vchunks) for c in range(vchunks)]
+    ctx = multiprocessing.get_context("fork")
+    with ctx.Pool(min(14, len(tasks))) as pool:
+        results = pool.map(_task, tasks, chunksize=1)
+    results.sort(key=lambda r: (versions.index(r["version"]), r["part"] != "vocabulary", r["chunk"]))
+    agg = {}
+    for r in results:
+        w.evaluations += r["evaluations"]
+        w.distinct |= r["distinct"]
+        for k, n in r["per_clause"].items():
+            w._per_clause[k] = w._per_clause.get(k, 0) + n
+        for f in r["failures"]:
+            if sum(1 for g in w.failures if g["clause"] == f["clause"]) < w.max_failures_per_clause:
+                w.failures.append(f)
+        w.samples += r["samples"]
+        a = agg.setdefault((r["version"], r["part"]), {"cases": 0, "counts": {}, "shapes": 0})
+        a["cases"] += r["cases"]
+        a["shapes"] = max(a["shapes"], r["extra"].get("shapes", 0))
+        for k, n in r["counts"].items():
+            a["counts"][k] = a["counts"].get(k, 0) + n
+    w.samples = w.samples[:8]
+    max_n, max_d = GRAMMAR_BOUND[w.quick]
+    for (version, part), a in agg.items():
+        if part == "vocabulary":
+            w.part("vocabulary[%s]" % version, cases=a["cases"],
+                   bound="every non-deprecated tag of HED%s.xml x every spelling (short, each partial path, long, 2 case "
+                         "variants) x rotating context of depth <= 2; values: %s per value class, units: every unit spelling "
+                         "of the unit class with %s SI modifiers; tag-level mutations on %s spellings" %
+                         (version, "2-4" if w.quick else "2-7", "2 of 20" if w.quick else "all",
+                          "short, long and one more" if w.quick else "all"),
+                   exhaustive=True, per_clause=a["counts"])
+        else:
+            w.part("grammar[%s]" % version, cases=a["cases"],
+                   bound="all %d ordered forest shapes with <= %d leaves and depth <= %d, one random distinct-atom filling "
+                         "each, one special group on every second shape; each structural mutation at every position" %
+                         (a["shapes"], max_n, max_d),
+                   exhaustive=False, per_clause=a["counts"])
     w.exhaustive = False
     w.not_covered += [
         "library / partnered schemas and namespaces (C13); the 'required' attribute (no bundled standard schema has a required tag)",
